@@ -272,18 +272,18 @@ func observe(c *config, m *coresim.Master, env string) []tobs {
 		if env != "" && t.EnvID != env {
 			continue
 		}
-		host := ""
+		host, machine := "", ""
 		for _, a := range m.Agents {
 			if a.ID == t.AgentID {
-				host = a.Host
+				host, machine = a.Host, a.Attributes["machine_id"]
 			}
 		}
 		for i := range c.tasks {
 			if t.Class != c.class(i) {
 				continue
 			}
-			if c.classes != nil && host != c.tasks[i].host {
-				continue // several roles share the class: told apart by the (constrained) host
+			if c.classes != nil && machine != c.tasks[i].host {
+				continue // several roles share the class: told apart by the (constrained) machine
 			}
 			o := tobs{launched: true, ports: map[uint64]bool{}, control: t.Cmd.ControlPort, host: host}
 			for _, r := range t.Info.Resources {
@@ -620,6 +620,17 @@ func agents() []*coresim.Agent {
 	}
 }
 
+// agentsFQDN: the same two machines, but Mesos knows them by their fully qualified host names while the
+// workflows keep selecting them through the machine_id attribute (hostA / hostB): "the host of the task that
+// binds it" is the name the agent is reachable by, not the value of the attribute the role was placed with.
+func agentsFQDN() []*coresim.Agent {
+	a := agents()
+	for _, ag := range a {
+		ag.Host = "node-" + strings.ToLower(strings.TrimPrefix(ag.Host, "host")) + ".example.org"
+	}
+	return a
+}
+
 // scenario explores every configuration of cfgs once. mode: "create" = NewEnvironment (DEPLOY +
 // CONFIGURE); "reconfigure" = additionally RESET and CONFIGURE again and judge what the second
 // CONFIGURE tells; "twoenv" = the same workflow is created twice, each environment is judged on its own.
@@ -628,6 +639,10 @@ func scenario(name, doc, mode string, cfgs []*config, seconds int) *vrt.Scenario
 }
 
 func scenarioDev(name, doc, mode string, cfgs []*config, seconds, dev int) *vrt.Scenario {
+	return scenarioOn(name, doc, mode, cfgs, seconds, dev, agents)
+}
+
+func scenarioOn(name, doc, mode string, cfgs []*config, seconds, dev int, agents func() []*coresim.Agent) *vrt.Scenario {
 	reached := false
 	b := vrt.Bounds{Dev: dev, Seconds: seconds}
 	return &vrt.Scenario{Name: name, Prop: "C13", Doc: fmt.Sprintf("%s (%d configurations)", doc, len(cfgs)),
@@ -1133,6 +1148,9 @@ func main() {
 		scenario("twoenv", "the same workflow deployed twice: each environment connects to its own endpoints", "twoenv", small("e"), 100),
 		scenarioDev("sched", "every schedule with one deviation for 12 configurations: what is told does not depend on the schedule", "create",
 			pairGrid("x", S("AB"), S("role class"), []string{omitted, "ipc"}, []string{"shmem"}, []string{"g1"}, S("role"), []string{omitted}, S("path alias wrongchan"), S("df")).cfgs, 150, 1),
+		scenarioOn("fqdn", "agents known to Mesos by a host name that differs from the machine_id the roles select them with: the outbound address carries the agent's host name", "create",
+			append(pairGrid("q", S("AA AB"), S("role class"), []string{omitted, "ipc"}, []string{"shmem"}, []string{omitted, "g1"}, S("role root"), []string{omitted}, S("path tpath alias tcpx wrongchan"), S("df")).cfgs,
+				iterGrid("j", S("role"), []string{omitted}).cfgs...), 100, 0, agentsFQDN),
 		// thorough tier
 		scenario("pair-full", "binder + connector, full grid", "create", pairT.cfgs, 900),
 		scenario("fan-full", "two binders + connector, full grid", "create", fanT.cfgs, 600),
